@@ -39,7 +39,9 @@ WANTED = [("sbdfstring.c", "sbdf_convert_utf8_to_iso88591"), ("sbdfstring.c", "s
           # creating, copying and releasing stored strings / byte arrays (malloc with a failure oracle, memcpy, strlen)
           ("internals.c", "sbdf_allocate_array"), ("internals.c", "sbdf_dispose_array"), ("internals.c", "sbdf_copy_array"),
           ("sbdfstring.c", "sbdf_str_create_len"), ("sbdfstring.c", "sbdf_str_create"), ("sbdfstring.c", "sbdf_str_destroy"),
-          ("sbdfstring.c", "sbdf_str_copy"), ("bytearray.c", "sbdf_ba_create"), ("bytearray.c", "sbdf_ba_destroy")]
+          ("sbdfstring.c", "sbdf_str_copy"), ("bytearray.c", "sbdf_ba_create"), ("bytearray.c", "sbdf_ba_destroy"),
+          # reading a string from a stream into a fresh block (bulk fread into the memory)
+          ("internals.c", "sbdf_read_string")]
 CALLABLE = set(w[1] for w in WANTED if len(w) == 2) | {"sbdf_swap"}
 
 
@@ -49,7 +51,7 @@ class Untranslatable(Exception):
 
 OUTPARAMS = set()
 EXTRA_LOCALS = set()
-CELLPTR = ("int*", "sbdf_valuetype*")          # pointers to a single int cell (a value type is a struct with the one field id)
+CELLPTR = ("int*", "sbdf_valuetype*", "char**")          # pointers to a single int cell (a value type is a struct with the one field id)
 
 
 def strip_casts(n):
@@ -221,6 +223,14 @@ def expr(n, scope):
                 if fc.w or fc.io: raise Untranslatable("fwrite count with side effects")
                 f = Fx(); f.io = True; f.r.add(pv); f.r |= fc.r
                 return '(EWriteBuf (EVar "%s") %s)' % (pv, cnt), f
+            if cname == "fread" and const_of(a1) == 1 and const_of(a2) is None and fparam and a0.get("kind") == "DeclRefExpr" \
+                    and a0.get("referencedDecl", {}).get("kind") == "VarDecl" and is_charptr(qt(a0)) and var_of(a0, scope) is not None:
+                # fread(t, 1, n, f) into a block of the memory (the stream is separate from the memory: "$strm")
+                pv = var_of(a0, scope)
+                cnt, fc = expr(n["inner"][3], scope)
+                if fc.w or fc.io: raise Untranslatable("fread count with side effects")
+                f = Fx(); f.io = True; f.r.add(pv); f.r |= fc.r
+                return '(EReadBuf (EVar "%s") %s)' % (pv, cnt), f
             if not (a0.get("kind") == "UnaryOperator" and a0.get("opcode") == "&" and const_of(a1) == 1 and const_of(a2) == 1 and fparam):
                 raise Untranslatable(cname + " other than (&x, 1, 1, f)")
             v = var_of(a0["inner"][0], scope)
@@ -355,7 +365,7 @@ def expr(n, scope):
                     nm = "*" + b_["referencedDecl"]["name"]; OUTPARAMS.add(nm)
                     e, f = expr(b, scope); f.w.add(nm)
                     return '(EAssign "%s" %s)' % (nm, e), f
-            if la.get("kind") == "UnaryOperator" and la.get("opcode") == "*" and qt(unparen(la["inner"][0])).replace(" ", "") == "int*":
+            if la.get("kind") == "UnaryOperator" and la.get("opcode") == "*" and qt(unparen(la["inner"][0])).replace(" ", "") in ("int*", "char**"):
                 pv = unparen(la["inner"][0])
                 while pv.get("kind") == "ImplicitCastExpr": pv = unparen(pv["inner"][0])
                 if pv.get("kind") == "DeclRefExpr" and pv.get("referencedDecl", {}).get("kind") == "ParmVarDecl":
@@ -364,6 +374,7 @@ def expr(n, scope):
                     e, f = expr(b, scope)
                     f.w.add(nm)
                     return '(EAssign "%s" %s)' % (nm, e), f
+                if qt(unparen(la["inner"][0])).replace(" ", "") == "char**": raise Untranslatable("store through a char** that is not a parameter")
                 # otherwise: an int stored into memory through a computed int pointer (below)
             if la.get("kind") == "UnaryOperator" and la.get("opcode") == "*" and elem_size(qt(unparen(la["inner"][0]))) == 4:
                 p_, fp = expr(la["inner"][0], scope)
@@ -399,7 +410,7 @@ def expr(n, scope):
                 off = eb if es == 1 else "(EBin Mul (EConst %s) %s)" % (zlit(es), eb)
                 return "(EPtrAdd %s %s)" % (ea, off), fx_join(fa, fb)
             if op == "+" and ta in SIZE_T and tb in SIZE_T:
-                return "(EBin Add %s %s)" % (ea, eb), fx_join(fa, fb)      # sizes: non-negative, checked as ints
+                return "(ESizeAdd %s %s)" % (ea, eb), fx_join(fa, fb)      # sizes: non-negative, 64-bit wrap-around
             if ta in SIZE_T and tb in SIZE_T and op in ("==", "!=", "<", "<=", ">", ">="):
                 return "(EBin %s %s %s)" % (BIN[op], ea, eb), fx_join(fa, fb)        # counts of fread / fwrite: 0 or 1
             if not (ta in CTY and tb in CTY): raise Untranslatable("operator %s on %s, %s" % (op, ta, tb))
@@ -565,7 +576,7 @@ def main():
             for c in decl["inner"]:
                 if c.get("kind") == "ParmVarDecl":
                     t = qt(c)
-                    if not (t in CTY or is_charptr(t) or t.replace(" ", "") in ("FILE*", "int*", "sbdf_valuetype", "sbdf_valuetype*")): raise Untranslatable("parameter of type " + t)
+                    if not (t in CTY or is_charptr(t) or t.replace(" ", "") in ("FILE*", "int*", "sbdf_valuetype", "sbdf_valuetype*", "char**")): raise Untranslatable("parameter of type " + t)
                     params.append(c["name"])
             if len(set(params)) != len(params): raise Untranslatable("duplicate parameter names")
             body = [c for c in decl["inner"] if c.get("kind") == "CompoundStmt"][0]
